@@ -25,6 +25,9 @@ type c13Outer struct {
 	C  chan int         `valid:"exist"`
 }
 
+// a map whose key type is a NAMED string type (reflect.MapOf cannot build one at run time)
+type c13K string
+
 // botheq groups over kinds that == cannot compare
 type c13G struct {
 	S1 []string       `valid:"botheq=1"`
@@ -87,6 +90,7 @@ func hostileValue(r *gal.Rng) (interface{}, string) {
 		{&c13G{S1: []string{"a"}, S2: []string{"a"}, M1: map[string]int{"a": 1}, M2: map[string]int{"a": 1}, F1: func() {}, F2: func() {}, E1: c13T{A: "x"}, E2: c13T{A: "x"}, I1: []int{1}, I2: []int{1}}, "groups-uncomparable-equal"},
 		{&c13G{S1: []string{"a"}, S2: []string{"b"}, M1: map[string]int{"a": 1}, M2: map[string]int{"a": 2}, E1: c13T{A: "x"}, E2: c13T{A: "y"}, I1: map[string]int{"a": 1}, I2: []int{1}}, "groups-uncomparable-differ"},
 		{map[string][]string{"a": {"x"}, "b": {"x"}}, "map-of-slices"},
+		{map[c13K]string{"a": "abc", "b": ""}, "map-named-key"}, {[]map[c13K]int{{"a": 3}}, "slice-map-named-key"}, {&map[c13K]string{"a": "x"}, "ptr-map-named-key"},
 		{"http://h/p?a=%zz", "bad-escape-url"}, {"http://h/p?a=1&a=2&=3&b", "odd-url"}, {"?", "qmark"}, {"", "empty-string"}, {"http://h/p?a=%", "trunc-escape"},
 	}
 	x := vals[r.Intn(len(vals))]
